@@ -92,6 +92,7 @@ struct Ex<'tcx> {
     adts: BTreeMap<String, J>,
     ext: BTreeMap<String, J>,
     panic_memo: HashMap<DefId, (u8, String)>, // 0 no, 1 yes, 2 unknown, 3 alloc-only
+    renames: BTreeMap<String, String>,
     max_instances: usize,
 }
 
@@ -143,6 +144,18 @@ impl<'tcx> Ex<'tcx> {
 
     fn def_path(&self, d: DefId) -> String {
         pp!(self.tcx.def_path_str(d))
+    }
+
+    /// re-exported workspace types/traits print under their visible path in dependent crates: remember the real path
+    fn note_rename(&mut self, d: DefId) {
+        if d.is_local() || !self.is_ws(d) {
+            return;
+        }
+        let vis = pp!(self.tcx.def_path_str(d));
+        let real = fixc(ty::print::with_no_visible_paths!(ty::print::with_no_trimmed_paths!(self.tcx.def_path_str(d))));
+        if vis != real {
+            self.renames.insert(vis, real);
+        }
     }
 
     fn inst_key(&self, i: Instance<'tcx>) -> String {
@@ -231,6 +244,7 @@ impl<'tcx> Ex<'tcx> {
     }
 
     fn note_adt(&mut self, def: ty::AdtDef<'tcx>, _args: GenericArgsRef<'tcx>) {
+        self.note_rename(def.did());
         let p = self.def_path(def.did());
         if self.adts.contains_key(&p) {
             return;
@@ -302,6 +316,7 @@ impl<'tcx> Ex<'tcx> {
         o.put("args", J::Arr(args.iter().map(|a| J::s(pp!(format!("{}", a)))).collect()));
         o.put("krate", J::s(krate_name(tcx, d)));
         if let Some(tr) = tcx.trait_of_assoc(d) {
+            self.note_rename(tr);
             o.put("trait", J::s(self.def_path(tr)));
             if args.len() > 0 {
                 if let Some(t0) = args.get(0).and_then(|a| a.as_type()) {
@@ -1104,6 +1119,7 @@ fn new_ex<'tcx>(tcx: TyCtxt<'tcx>, crate_name: &str) -> Ex<'tcx> {
         adts: BTreeMap::new(),
         ext: BTreeMap::new(),
         panic_memo: HashMap::new(),
+        renames: BTreeMap::new(),
         max_instances: 0, // nothing is enqueued from pre-bodies
     }
 }
@@ -1146,6 +1162,7 @@ fn export<'tcx>(tcx: TyCtxt<'tcx>, out_dir: &str, crate_name: &str) {
         adts: BTreeMap::new(),
         ext: BTreeMap::new(),
         panic_memo: HashMap::new(),
+        renames: BTreeMap::new(),
         max_instances: std::env::var("MCV_MAX").ok().and_then(|s| s.parse().ok()).unwrap_or(60000),
     };
 
@@ -1222,6 +1239,7 @@ fn export<'tcx>(tcx: TyCtxt<'tcx>, out_dir: &str, crate_name: &str) {
     // 3. impl tables of the traits of interest
     let mut impls = Vec::new();
     for tr in tcx.all_traits_including_private() {
+        ex.note_rename(tr);
         let tp = ex.def_path(tr);
         let interesting = tp.starts_with("minicbor")
             || tp.starts_with("encode::")
@@ -1263,6 +1281,7 @@ fn export<'tcx>(tcx: TyCtxt<'tcx>, out_dir: &str, crate_name: &str) {
     tcx.hir_visit_all_item_likes_in_crate(&mut uv);
     root.put("unsafe_blocks", J::Arr(uv.out));
 
+    root.put("renames", J::Obj(ex.renames.iter().map(|(k, v)| (k.clone(), J::s(v.clone()))).collect()));
     root.put("adts", J::Obj(ex.adts.into_iter().collect()));
     root.put("ext", J::Obj(ex.ext.into_iter().collect()));
 
